@@ -457,6 +457,19 @@ func runConc(c ConcCase) (st concStats, v *Violation) {
 			}
 		}
 		var lines []string
+		// Two overlapping writers of one key can also damage the entry of
+		// another key of the bucket (Index.Update and Remove match by
+		// stored prefix): same root cause as the same-key race.
+		if badKey >= 0 {
+			for i, a := range hist {
+				for _, b := range hist[i+1:] {
+					if a.Task != b.Task && a.Key == b.Key && a.Mutating && b.Mutating && overlap(a, b) &&
+						bucketOf(c.Keys[a.Key].Digest, c.Cfg.Bits) == bucketOf(c.Keys[badKey].Digest, c.Cfg.Bits) {
+						ctx = "same-key-writers-overlap"
+					}
+				}
+			}
+		}
 		for _, h := range hist {
 			// An operation on another key of the bucket may have held (and
 			// then dropped) this key's entry.
